@@ -230,7 +230,7 @@ def run_haplotag_once(vcf, bam, out, sim, opts, listfile):
 
     kw = dict(variant_file=vcf, alignment_file=bam, output=out, reference=sim.fasta if opts["use_ref"] else False, haplotag_list=listfile)
     if opts.get("regions"):
-        kw["regions"] = ["%s:%d-%d" % (c, s + 1, e) for c, s, e in opts["regions"]]
+        kw["regions"] = [(c if (s == 0 and e is None) else "%s:%d" % (c, s + 1)) if e is None else "%s:%d-%d" % (c, s + 1, e) for c, s, e in opts["regions"]]
     for k in ("tag_supplementary", "ignore_read_groups", "ignore_linked_read", "output_threads"):
         if opts.get(k):
             kw[k] = opts[k]
@@ -317,12 +317,23 @@ def run_one(rng, counters):
                     e -= rng.randint(10, 150)  # a gap between regions
                 regs.append((c, s, e))
             opts["regions"] = regs
+        if opts.get("regions") and rng.random() < 0.25:
+            # open-ended requests: "chr1:601" (to the end of the contig) and a bare contig name
+            regs = list(opts["regions"])
+            k = rng.randrange(len(regs))
+            c, s_, e_ = regs[k]
+            regs[k] = (c, s_, None) if rng.random() < 0.7 else (c, 0, None)
+            if rng.random() < 0.5 and s_ >= 50:
+                # ... next to (adjacent to / overlapping) a closed one on the same contig
+                regs.insert(k, (c, max(0, s_ - rng.randint(100, 600)), s_ + rng.choice([0, 0, 50])))
+            opts["regions"] = regs
+            opts["regions_open_ended"] = True
         if opts.get("regions") and len(opts["regions"]) > 1 and rng.random() < 0.4:
             # the same request spelled differently: regions in another order (contigs too), and overlapping ones
             regs = list(opts["regions"])
             if rng.random() < 0.5:
                 c, s_, e_ = rng.choice(regs)
-                regs.append((c, max(0, s_ - rng.randint(0, 200)), e_ + rng.randint(-100, 300)))
+                regs.append((c, max(0, s_ - rng.randint(0, 200)), (e_ + rng.randint(-100, 300)) if e_ is not None else None))
             rng.shuffle(regs)
             opts["regions"] = regs
             opts["regions_hostile"] = True
